@@ -202,6 +202,18 @@ def build_reply(cfg, req, varbinds, pdu_tag=rb.PDU_RESPONSE, request_id=None, er
     if auth_params is not None:
         usm = rb.usm_params(eid, b, t, u, bytes(auth_params), priv_params)
         return rb.msg_v3(mid, max_size, flags, sec_model, usm, data, forms.get("msg", 0), 3 if version is None else version)
+    if isinstance(mac, tuple) and mac[0] == "trunc" and cfg.auth is not None:
+        # a MAC field of k octets holding the first k octets of the HMAC computed over the message with that
+        # (k-octet) field zeroed: what a verifier that trusts the received field length would accept
+        k = mac[1]
+        usm = rb.usm_params(eid, b, t, u, b"\x00" * k, priv_params)
+        msg = rb.msg_v3(mid, max_size, flags, sec_model, usm, data, forms.get("msg", 0), 3 if version is None else version)
+        s0, s1 = rb.parse_message(msg, strict=False, data=False)["auth_span"]
+        dig = ru.DIGESTS[cfg.auth][0]
+        import hmac as _h
+        full = _h.new(cfg.kul_auth(eid), msg, dig).digest()
+        tag = (full + full)[:k]
+        return msg[:s0] + tag + msg[s1:]
     if cfg.auth is None or mac == "absent":
         ap = b""
     elif mac == "short":
